@@ -114,6 +114,12 @@ def refine(c, ranges):
     if c[0] == 'band':
         refine(c[1], ranges); refine(c[2], ranges); return
     if c[0] not in ('le', 'lt', 'eq'): return
+    if c[0] in ('le', 'lt'):
+        # relational fact: the difference itself is bounded below (used when both sides are symbolic)
+        diff = sub(c[2], c[1])
+        if diff[0] != 'c':
+            old = ranges.get(diff, (-BIG, BIG))
+            ranges[diff] = (max(old[0], 1 if c[0] == 'lt' else 0), old[1])
     d = sub(c[1], c[2])
     if c[0] == 'lt': d = add(d, ONE)          # a < b  <=>  a - b + 1 <= 0
     _refine_le0(d, ranges)
@@ -373,7 +379,7 @@ def cmp(op, a, b):
 
 def subterms(t, acc=None):
     if acc is None: acc = set()
-    if not isinstance(t, tuple) or t in acc: return acc
+    if not isinstance(t, tuple) or not t or not isinstance(t[0], str) or t in acc: return acc
     acc.add(t)
     k = t[0]
     if k in ('c', 'a'): return acc
